@@ -151,10 +151,14 @@ def project_term(term) -> dict:
     for f in factors:
         if isinstance(f, WignerD):
             j, m, mp, a, b, g = f.args
+            asign = -1
             phi = -a
-            if g != 0 or not (phi.is_Symbol and phi.name.startswith("phi_")) or not (b.is_Symbol and b.name == "theta" + phi.name[3:]):
+            if a.is_Symbol:
+                phi, asign = a, 1
+            if not (phi.is_Symbol and phi.name.startswith("phi_")) or not (b.is_Symbol and b.name == "theta" + phi.name[3:]):
                 raise AmpProjectionError(f"WignerD arguments {f.args}")
-            Ds.append([int(2 * j), int(2 * m), int(2 * mp), parse_suffix(phi.name)])
+            # [J2, m2, m'2, angle name, sign of the phi argument (-1 = conjugate D), gamma is zero]
+            Ds.append([int(2 * j), int(2 * m), int(2 * mp), parse_suffix(phi.name), asign, int(g == 0)])
         elif isinstance(f, CG):
             CGs.append([int(2 * x) for x in f.args])
         elif f.is_Symbol:
